@@ -5,6 +5,7 @@ mod net;
 mod sched;
 mod solve;
 mod tour;
+mod trans;
 
 use std::env;
 use std::fs;
@@ -36,6 +37,7 @@ fn main() {
         "net" => net::run(&case, &mut out),
         "tour" => tour::run(&case, &mut out),
         "solve" => solve::run(&case, &mut out),
+        "trans" => trans::run(&case, &mut out),
         _ => {
             eprintln!("unknown command {}", cmd);
             std::process::exit(2);
